@@ -283,6 +283,7 @@ struct Link {
    virtual void PumpReverse() {}
    virtual bool CanQueueNow() {return true;}
    virtual bool Acceptable(const MsgSpec & /*s*/) {return true;}               // false: this Message falls under the predicate of an open known finding on this connection
+   std::string fault;                                                          // set by a link that watches more than the direction under test (a second connection sharing tagged Messages)
    bool retryQueue;                                                            // Queue() may fail for lack of room in a fixed output buffer: try again after some output
    virtual void SizeCases(std::vector<struct SizeCase> & /*out*/, bool /*big*/) {}   // the size sweep of this configuration, derived from the thresholds in its gateways' sources
 };
@@ -468,6 +469,7 @@ inline void ReplayBehaviour(LinkFactory mk, const std::string & cfg, const mj::V
       if (a == "Send") {
          if (!L.Queue(msgs[nsent])) {o.violations.push_back(Fmt("step %u: AddOutgoingMessage failed", (unsigned) stepNo)); dead = true; break;}
          mon.OnSent(msgs[nsent]); nsent++; C.messages++;
+         if (!L.fault.empty()) {o.violations.push_back(L.fault); dead = true; break;}
       } else if (a == "Out") {
          const int64_t m = st["m"].i(); const mj::Value & w = st["w"];
          std::vector<uint64_t> caps; uint64_t cum = pas; for (size_t k=0; k<w.size(); k++) {cum += (uint64_t) w[k].i(); caps.push_back(wbase + pm.Map(cum));}
@@ -556,6 +558,7 @@ inline void RandomRun(LinkFactory mk, const std::string & cfg, uint32_t seed, ui
          if ((!fixed)&&(!L.Acceptable(s))) {C.skippedKnown++; continue;}
          if (!L.Queue(s)) {if (L.retryQueue) {idle++; goto pump;} o.violations.push_back("AddOutgoingMessage failed"); break;}
          mon.OnSent(s); queued++; C.messages++;
+         if (!L.fault.empty()) {o.violations.push_back(L.fault); break;}
          if (bl) {sendLineIdx.push_back(blines.size()); blines.push_back("");}
          continue;
       }
